@@ -67,6 +67,11 @@ BODIES = {
     'call-in-loop': '  do j=1,2\n    call k_rw(n, c(:, j), w, t)\n    a(j) = w(j)\n  end do',
     'call-element-args': '  do i=1,n\n    call k_noint(ia, i, ib)\n    a(i) = real(ia + ib)\n  end do',
     'while-loop': '  i = 1\n  x = s\n  do while (i < n .and. x < 10.)\n    x = x + a(i)\n    i = i + 1\n  end do\n  t = x',
+    'loop-if-writes-else-reads': '  do i=1,n\n    if (mod(i, 2) == 0) then\n      x = 10.*i\n    else\n      b(i) = x\n    end if\n  end do',
+    'loop-elseif-reads-earlier-branch': '  y = s\n  do i=1,n\n    if (a(i) > 0.) then\n      y = a(i)\n    else if (a(i) < 0.) then\n      b(i) = y\n    else\n      t = y + t\n    end if\n  end do',
+    'loop-nested-if-carried': '  x = 0.\n  do i=1,n\n    if (flag) then\n      if (i > 1) then\n        a(i) = x\n      else\n        x = a(i)\n      end if\n    end if\n  end do',
+    'loop-where-carried': '  do j=1,2\n    where (c(:, j) > 0.)\n      w = c(:, j)\n    elsewhere\n      c(:, j) = w\n    end where\n  end do',
+    'select-case-in-loop-carried': '  do i=1,n\n    select case (mod(i, 3))\n    case (0)\n      x = a(i)\n    case (1)\n      b(i) = x\n    case default\n      y = x\n    end select\n  end do',
     'early-exit': '  x = 0.\n  do i=1,n\n    if (a(i) < 0.) exit\n    x = x + a(i)\n  end do\n  s = x + real(i)',
 }
 
